@@ -305,6 +305,10 @@ def range_terms(res, b, op):
     if p is None or not mir.is_local(p):
         return None
     sd = b.single_def(p["l"])
+    if sd is not None and sd[2].get("k") == "call" and (sd[2]["t"].get("callee") or "").endswith(("RangeInclusive<Idx>::new", "RangeInclusive::<Idx>::new", "RangeInclusive::new")) and len(sd[2]["t"]["args"]) == 2:
+        # lo..=hi is lo..hi+1
+        lo, hi = res.lin(sd[2]["t"]["args"][0]), res.lin(sd[2]["t"]["args"][1])
+        return (lo, (hi[0], hi[1] + 1), "range")
     if sd is None or sd[2].get("k") != "agg":
         return None
     rv = sd[2]
